@@ -122,6 +122,19 @@ fix(
     ),
 )
 
+fix(
+    "C20d",
+    "fix: print the whole computation log of a verbose YAML test when no max_depth option is given",
+    (
+        "openfisca_core/tools/test_runner.py",
+        "    def print_computation_log(self, tracer, aggregate, max_depth) -> None:\n        tracer.print_computation_log(aggregate, max_depth)\n",
+        "    def print_computation_log(self, tracer, aggregate, max_depth) -> None:\n"
+        "        if max_depth is None:\n"
+        "            max_depth = sys.maxsize\n"
+        "        tracer.print_computation_log(aggregate, max_depth)\n",
+    ),
+)
+
 TBS = "openfisca_core/taxbenefitsystems/tax_benefit_system.py"
 fix(
     "C07",
